@@ -135,6 +135,19 @@ def resolved_first(db, ctx):
         if not (is_true or is_false):
             okw = False
     ctx.ob("resolved|writers", okw and len(writers) >= 2, "writers of DictBuilder.resolved: %s (true only inside resolve_impl)" % desc)
+    # ... and only where resolution has succeeded or was not needed
+    ri = db.one("resolve_impl", "DictBuilder")
+    for n, ps in walk(ri.hir):
+        if n.get("k") == "Assign" and peel(n["l"]).get("k") == "Field" and peel(n["l"]).get("name") == "resolved" and peel(n["r"]).get("v") is True:
+            pcs = path_conditions(n["id"], ri.hir) or []
+            ok_arm = any(isinstance(c, tuple) and c[0] == "arm" and (c[2].get("path") or "").split("::")[-1] == "Ok" for c, pol in pcs)
+            not_needed = any(p2 is False and mentions(a2, is_call_to("needs_split_resolution"))
+                             for c, pol in pcs if isinstance(c, dict) for a2, p2 in atoms(c, pol))
+            after_try = False
+            ctx.ob("resolve_impl|resolved=true-only-on-success#%s" % ("ok-arm" if ok_arm else "not-needed" if not_needed else "other"), ok_arm or not_needed,
+                   "`self.resolved = true` is reached %s (must be inside the Ok arm of the resolution result, or when no resolution is needed): otherwise a failed "
+                   "resolve() lets compile() run into the 'unresolved splits' panics" % ("in the Ok arm" if ok_arm else "when !needs_split_resolution()" if not_needed else "UNCONDITIONALLY / on the error path too"),
+                   fn=ri, site=n.get("sp"))
 
 
 def _build_fns(db):
@@ -388,6 +401,13 @@ def sink(db, ctx):
             ctx.ob("%s|%s#%d" % (f.short(), short_path(cal), _ordinal(f, c)), ok,
                    "%s: result of `%s` is %s%s" % (f.short(), render(c), kind, (" (" + str(det) + ")") if det else ""),
                    fn=f, site=c.get("sp"))
+    # `Write::write` may write fewer bytes than asked and still return Ok: on the sink only write_all is acceptable
+    for f in _build_fns(db):
+        for c, ps in walk(f.hir):
+            if c.get("k") == "MethodCall" and c.get("method") == "write" and path_ends(c.get("callee") or "", "io::Write::write"):
+                ctx.ob("%s|Write::write#%d" % (f.short(), _ordinal(f, c)), False,
+                       "%s: `%s` uses io::Write::write, which may perform a SHORT write and return Ok(n < len): a sink that runs out of room is "
+                       "reported as success; the sink must be written with write_all" % (f.short(), render(c)[:70]), fn=f, site=c.get("sp"))
     ctx.floor(30)
 
 
